@@ -129,6 +129,16 @@ def same_name_var_and_let(b):
     return False
 
 
+# K25: a byte that is not valid UTF-8 inside an identifier is accepted, but decoded together with whatever follows it: after the
+#      minifier has reordered the operands the same byte is rejected on the second pass (!a?t|ue:fal\xffe -> a?fal\xffe:t|ue)
+def valid_utf8(b):
+    try:
+        b.decode('utf-8')
+        return True
+    except UnicodeDecodeError:
+        return False
+
+
 # constructs whose defect is fixed in /repo are no longer excluded: FIXED lists them permanently; VERIF_C09_LIFT=K5,K8 lifts more for a
 # trial run against a patched tree (maintenance)
 FIXED_NOTES = {
@@ -198,6 +208,8 @@ def excluded(lang, opts, b):
         tags.append('K11')
     if lang in ('js', 'html') and ('names' in opts or 'keep' in opts) and same_name_var_and_let(b):
         tags.append('K12')
+    if lang == 'js' and not valid_utf8(b):
+        tags.append('K25')
     return [t for t in tags if t not in LIFTED]
 
 
